@@ -1,7 +1,7 @@
 ---------------------------- MODULE Gen_VGroup ----------------------------
 EXTENDS VGroup, Json, CSV, IOUtils
-NamesSmall == {<<1, "a">>}
-NamesGen == {<<1, "a">>, <<63, "b">>, <<64, "c">>, <<65, "d">>, <<300, "e">>}
+NamesSmall == {<<64, "c">>, <<65, "c">>}
+NamesGen == {<<1, "a">>, <<63, "c">>, <<64, "c">>, <<65, "c">>, <<300, "c">>}
 RECURSIVE Flat(_)
 Flat(ss) == IF ss = <<>> THEN <<>> ELSE Head(ss) \o Flat(Tail(ss))
 Ev(o, a, x) == [op |-> o, args |-> a, out |-> x]
